@@ -165,3 +165,59 @@ Proof.
   - eexists _, _. split; [vm_compute; reflexivity|]. apply containsb_false. vm_compute. reflexivity.
   - eexists _, _. split; [vm_compute; reflexivity|]. apply containsb_spec. vm_compute. reflexivity.
 Qed.
+
+(** ** the scan can stop at a system message only right before the latest message (or if it carries images) *)
+Lemma firstn_S_nth {A} (l : list A) i x : nth_error l i = Some x -> firstn (S i) l = firstn i l ++ [x].
+Proof.
+  revert i; induction l as [|y l IH]; intros [|i] H; cbn in *; try discriminate.
+  - injection H as ->. reflexivity.
+  - f_equal. apply IH, H.
+Qed.
+
+Lemma skipn_nth_cons {A} (l : list A) i x : nth_error l i = Some x -> skipn i l = x :: skipn (S i) l.
+Proof.
+  revert i; induction l as [|y l IH]; intros [|i] H; cbn in *; try discriminate.
+  - injection H as ->. reflexivity.
+  - apply IH, H.
+Qed.
+
+Lemma candidate_system_eq msgs i m :
+  nth_error msgs i = Some m -> is_system m = true -> candidate msgs i = candidate msgs (S i).
+Proof.
+  intros Hn Hs. unfold candidate, sysmsgs. rewrite (firstn_S_nth msgs i m Hn), (skipn_nth_cons msgs i m Hn), filter_app.
+  cbn [filter]. rewrite Hs, <- app_assoc. reflexivity.
+Qed.
+
+Lemma fits_system_eq render count mllama projcount numctx msgs i m :
+  nth_error msgs i = Some m -> is_system m = true -> images m = [] ->
+  fits render count mllama projcount numctx msgs i = fits render count mllama projcount numctx msgs (S i).
+Proof.
+  intros Hn Hs Hi. unfold fits, ctxlen. rewrite (candidate_system_eq msgs i m Hn Hs), (skipn_nth_cons msgs i m Hn), nimages_cons.
+  unfold nimg. rewrite Hi. reflexivity.
+Qed.
+
+Lemma stop_at_system render count mllama projcount numctx msgs n m :
+  scan_all render count mllama projcount numctx msgs = Ok (S n) ->
+  nth_error msgs n = Some m -> is_system m = true -> images m = [] -> S n = (length msgs - 1)%nat.
+Proof.
+  intros H Hn Hs Hi. apply start_facts in H as (Hlt & Hall & Hstop & _).
+  destruct Hstop as [Hz|Hnf]; [discriminate|]. replace (S n - 1)%nat with n in Hnf by lia.
+  destruct (Nat.eq_dec (S n) (length msgs - 1)) as [E|E]; [exact E|]. exfalso.
+  rewrite (fits_system_eq render count mllama projcount numctx msgs n m Hn Hs Hi) in Hnf.
+  rewrite Hall in Hnf by lia. discriminate.
+Qed.
+
+(** ** the conversation assembled by the chat handler *)
+Lemma chat_msgs_spec system model_msgs req :
+  req <> [] ->
+  exists pre, chat_msgs system model_msgs req = pre ++ model_msgs ++ req /\
+    ((pre = [] /\ (system = [] \/ exists r0 t, req = r0 :: t /\ is_system r0 = true)) \/
+     (pre = [mkMsg s_system system []] /\ system <> [] /\ exists r0 t, req = r0 :: t /\ is_system r0 = false)).
+Proof.
+  intros Hne. unfold chat_msgs. destruct req as [|r0 t]; [congruence|].
+  destruct (is_system r0) eqn:Es; cbn [negb andb].
+  - exists []. split; [reflexivity|]. left. split; [reflexivity|]. right. exists r0, t. split; [reflexivity | exact Es].
+  - destruct system as [|c s]; cbn [is_nil negb].
+    + exists []. split; [reflexivity|]. left. split; [reflexivity|]. left. reflexivity.
+    + exists [mkMsg s_system (c :: s) []]. split; [reflexivity|]. right. split; [reflexivity|]. split; [discriminate|]. exists r0, t. split; [reflexivity | exact Es].
+Qed.
